@@ -1067,6 +1067,11 @@ private:
         continue;
       s->closed = true;
       delEpoll(s->fd);
+      // Drop the descriptor's tag like closeNow does: the engine can be started
+      // again, the next socket may get the same descriptor number, and
+      // _fdTags.emplace would then keep this stale tag - events for the new socket
+      // would be dispatched to the Session freed below.
+      _fdTags.erase(s->fd);
       // SSL_shutdown before close(fd) — same ordering as closeNow
       if (s->ssl)
       {
